@@ -1213,10 +1213,45 @@ func checkExistsAndRegistry(w *World, r *Report) {
 		walk(fn, 0)
 		return found
 	}
-	isStat := func(in ssa.Instruction) bool {
+	var isStat func(in ssa.Instruction) bool
+	// a predicate handed to a search helper (slices.ContainsFunc, IndexFunc): it answers true
+	// only behind a query of its own
+	predAsks := func(g *ssa.Function) bool {
+		if g == nil || len(g.Blocks) == 0 || g.Signature.Results().Len() != 1 {
+			return false
+		}
+		okAll, nret := true, 0
+		instrsOf(g, func(in ssa.Instruction) {
+			ret, ok := in.(*ssa.Return)
+			if !ok {
+				return
+			}
+			nret++
+			if isConstBool(retResults(ret)[0], false) {
+				return
+			}
+			if found, _ := existsPathAvoiding(g, in, isStat, nil); found {
+				okAll = false
+			}
+		})
+		return okAll && nret > 0
+	}
+	isStat = func(in ssa.Instruction) bool {
 		c, ok := in.(ssa.CallInstruction)
 		if !ok {
 			return false
+		}
+		for _, a := range c.Common().Args {
+			switch x := a.(type) {
+			case *ssa.MakeClosure:
+				if g, ok := x.Fn.(*ssa.Function); ok && predAsks(g) {
+					return true
+				}
+			case *ssa.Function:
+				if isTwigFn(x) && predAsks(x) {
+					return true
+				}
+			}
 		}
 		if g := calleeFunc(c); g != nil && g.Pkg() != nil && g.Pkg().Path() == "os" {
 			switch g.Name() {
